@@ -18,6 +18,7 @@
 package c10
 
 import (
+	"sync"
 	"syscall"
 	"debug/elf"
 	"debug/gosym"
@@ -466,7 +467,14 @@ func Run(c *vk.Ctx) {
 	}
 	fault := strings.HasSuffix(sub, "-fault")
 	sub = strings.TrimSuffix(sub, "-fault")
+	raceSub := strings.HasSuffix(sub, "-race")
+	sub = strings.TrimSuffix(sub, "-race")
 	t := buildTruth(sub)
+	if raceSub && c.Replay == "" {
+		runRace(c, t, sub)
+		c.Finish()
+		return
+	}
 	if fault && c.Replay == "" {
 		runFault(c, t, sub)
 		c.Finish()
@@ -600,4 +608,66 @@ func runFault(c *vk.Ctx, t *truth, sub string) {
 	c.Res.States++
 	c.Sample(map[string]interface{}{"sub": sub + "-fault", "fault_pattern": fmt.Sprintf("%03b", pattern)})
 	c.Res.Extra["fault_patterns"] = 8
+}
+
+// runRace (free-running, -race build, side pass): the very first lookups of the process are
+// issued by several goroutines at once — the lazily built symbol table and address correction
+// are shared globals. Every answer must be exact or an error; the race detector's reports are
+// collected by the driver.
+func runRace(c *vk.Ctx, t *truth, sub string) {
+	known := c10vars.Funcs()
+	gen := c10vars.Vars()
+	const n = 8
+	start := make(chan struct{})
+	var wg sync.WaitGroup
+	type ans struct {
+		cs Case
+	}
+	res := make([][]Case, n)
+	for g := 0; g < n; g++ {
+		g := g
+		wg.Add(1)
+		go func() {
+			defer wg.Done()
+			<-start
+			for i := 0; i < 4; i++ {
+				k := known[(g+i)%len(known)]
+				res[g] = append(res[g], Case{Sub: sub, API: apiFunc, Base: k.Name, Query: k.Name, Mutation: "concurrent-first-lookup"})
+				v := gen[(g*7+i)%len(gen)]
+				res[g] = append(res[g], Case{Sub: sub, API: apiVar, Base: v.Name, Query: v.Name, Mutation: "concurrent-first-lookup"})
+			}
+		}()
+	}
+	_ = res
+	// the lookups themselves (judge calls goom) run concurrently
+	var mu sync.Mutex
+	var wg2 sync.WaitGroup
+	close(start)
+	wg.Wait()
+	go2 := make(chan struct{})
+	for g := 0; g < n; g++ {
+		g := g
+		wg2.Add(1)
+		go func() {
+			defer wg2.Done()
+			<-go2
+			for _, cs := range res[g] {
+				class, desc, _ := t.judge(cs)
+				mu.Lock()
+				c.Res.Evaluations++
+				c.Res.Transitions++
+				if class != "" && class != "present-symbol-not-resolved" {
+					c.Violate(fmt.Sprintf("link=%s concurrent-first-lookup api=%s class=%s", sub, cs.API, class), desc+" (8 goroutines issuing the first lookups of the process at once)", cs)
+				}
+				mu.Unlock()
+			}
+		}()
+	}
+	close(go2)
+	wg2.Wait()
+	c.Res.Traces++
+	c.Res.States = 1
+	c.Res.Nontrivial++
+	c.Res.Extra["sampled_side_pass"] = true
+	c.Res.Extra["race_pass"] = "sampled (8 goroutines issue the first lookups of a fresh -race process at once; one process per shard)"
 }
